@@ -248,7 +248,7 @@ def run(P, R):
     oc = P.unit('ApplicationStartJobs.on_command_added')
     fm = factmap(oc)
     gi = [c for c in own_nodes(oc.node) if isinstance(c, ast.Call) and call_text(c) == 'get_supvisors_instance']
-    ok = len(gi) == 1 and fm.has(gi[0], 'self.distribution != DistributionRules.ALL_INSTANCES', True)
+    ok = len(gi) == 1 and fm.has(gi[0], 'self.distribution == DistributionRules.ALL_INSTANCES', False)
     R.check(r4, ok, 'a command added later follows the application selection when not distributed',
             'distribution|on_command_added', oc.loc(), 'on_command_added does not place under `distribution != '
             'ALL_INSTANCES`')
